@@ -50,6 +50,17 @@ type pnFn struct {
 	decl    [][]int // slots declared per open scope
 	next    int
 	errs    int // fmt.Errorf sites seen
+	// optional (gen_members.go); nil for the six functions of GenTables.v
+	translated  map[string]bool // replaces pnTranslated
+	pkgVars     map[string]bool // package-level variables read as the nullary call of their name
+	oracleMeths map[string]bool // x.M(args) written GCall "reflect.Type.M" (x :: args): answered by the runner's oracle
+}
+
+func (t *pnFn) isTranslated(name string) bool {
+	if t.translated != nil {
+		return t.translated[name]
+	}
+	return pnTranslated[name]
 }
 
 func (t *pnFn) push() {
@@ -171,6 +182,9 @@ func (t *pnFn) expr(e ast.Expr) string {
 		if s, ok := t.find(x.Name); ok {
 			return fmt.Sprintf("GVar %d", s)
 		}
+		if t.pkgVars[x.Name] {
+			return "GCall " + coqString(x.Name) + " []"
+		}
 		return pnUnrecE(e)
 	case *ast.BasicLit:
 		switch x.Kind {
@@ -285,7 +299,7 @@ func (t *pnFn) call(c *ast.CallExpr) string {
 			}
 			return pnUnrecE(c)
 		}
-		if pnTranslated[f.Name] {
+		if t.isTranslated(f.Name) {
 			return "GCall " + coqString(f.Name) + " " + t.exprs(c.Args)
 		}
 		return pnUnrecE(c)
@@ -296,10 +310,13 @@ func (t *pnFn) call(c *ast.CallExpr) string {
 				t.errs++
 				return fmt.Sprintf("GCall \"fmt.Errorf\" [GNat %d]", n)
 			}
-			if pnTranslated[f.Sel.Name] {
+			if t.isTranslated(f.Sel.Name) {
 				return "GCall " + coqString(f.Sel.Name) + " " + t.exprs(c.Args)
 			}
 			return "GCall " + coqString(pkg+"."+f.Sel.Name) + " " + t.exprs(c.Args)
+		}
+		if t.oracleMeths[f.Sel.Name] {
+			return "GCall " + coqString("reflect.Type."+f.Sel.Name) + " " + t.exprs(append([]ast.Expr{f.X}, c.Args...))
 		}
 		return "GMeth " + pnPar(t.expr(f.X)) + " " + coqString(f.Sel.Name) + " " + t.exprs(c.Args)
 	}
@@ -813,7 +830,10 @@ var pnFunctions = []pnSpec{
 	{"fn_exit", "compiler/patcher.go", "Exit", "operatorPatcher"},
 }
 
-func pnFunction(sp pnSpec) string {
+func pnFunction(sp pnSpec) string { return pnFunctionWith(sp, nil) }
+
+// cfg (may be nil) sets the optional fields of the reader before the body is read
+func pnFunctionWith(sp pnSpec, cfg func(*pnFn)) string {
 	missing := func(why string) string {
 		return fmt.Sprintf("Definition %s : fdef :=\n  mkF %s 0 0 [SUnrecognised %s].\n", sp.coqName, coqString(sp.name), coqString(sp.file+": "+why))
 	}
@@ -826,6 +846,9 @@ func pnFunction(sp pnSpec) string {
 		return missing("no func " + sp.name)
 	}
 	t := &pnFn{imports: map[string]bool{}}
+	if cfg != nil {
+		cfg(t)
+	}
 	for _, im := range f.Imports {
 		p, _ := strconv.Unquote(im.Path.Value)
 		n := p[strings.LastIndex(p, "/")+1:]
